@@ -336,12 +336,53 @@ def text_of(doc, spelled=None):
 
 def run_impl(case):
     """text = write_yaml(document) (real ruamel dump) or the case's own spelling; n1 = Netlist(text);
-    text1 = n1.write_yaml(); n2 = Netlist(text1); text2 = n2.write_yaml().  case["via"] == "tree": Netlist(document)."""
+    text1 = n1.write_yaml(); n2 = Netlist(text1); text2 = n2.write_yaml().
+    case["via"]: "tree" = Netlist(document), "file" = Netlist(name of a file holding the text).
+    case["history"]: documents loaded (and written) in the same process before, each from an undefined epsilon;
+    case["twice"]: the very same source object is loaded twice, the second load is observed."""
+    import os
+    import tempfile
     from ruamel.yaml import YAML
     doc = to_py(case["doc"])
     eps = case.get("eps")
+    for h in case.get("history") or []:
+        hd = to_py(h["doc"])
+        ht = None if h.get("via") == "tree" else text_of(hd)[0]
+        nh, _ = load(hd if ht is None else ht, eps)
+        if nh is not None and h.get("write", True):
+            nh.write_yaml()
     text, how = (None, "tree") if case.get("via") == "tree" else text_of(doc, case.get("text"))
     src = doc if text is None else text
+    tmp = None
+    if case.get("via") == "file" and text is not None:
+        tmp = tempfile.mkdtemp(prefix="nl")
+        src = os.path.join(tmp, "netlist.yaml")
+        if ": " in src:
+            src = text
+        else:
+            with open(src, "w", encoding="utf-8", newline="") as f:
+                f.write(text)
+            try:        # read back the way read_yaml does: the file must hold the document
+                with open(src) as f:
+                    same = same_tree(YAML(typ="safe").load(f.read()), doc)
+            except Exception:
+                same = False
+            if same:
+                how = how + "-file"
+            else:
+                src = text
+    try:
+        return _observe(case, src, text, how, eps)
+    finally:
+        if tmp is not None:
+            import shutil
+            shutil.rmtree(tmp, ignore_errors=True)
+
+
+def _observe(case, src, text, how, eps):
+    from ruamel.yaml import YAML
+    if case.get("twice"):
+        load(src, eps)
     obs = {"text": text, "via": how}
     n1, v = load(src, eps)
     obs.update(v)
@@ -350,6 +391,7 @@ def run_impl(case):
     obs["n1"] = netlist_obs(n1)
     text1 = n1.write_yaml()
     obs["text1"] = text1
+    obs["text1_again"] = n1.write_yaml()      # writing does not change the design it writes
     try:
         obs["tree1"] = from_py(YAML(typ="safe").load(text1))
     except Exception as e:
